@@ -45,6 +45,16 @@ def lbind(a, tok):
     return lc(out)
 
 
+def lind(a, digkey, value):
+    """multiply every (point, no digit) term by the indicator [digit == value] of the symbolic digit digkey = (scalar id, position)"""
+    out = {}
+    for (p, d), c in a[1]:
+        if d is not None:
+            return None
+        out[(p, ("ind", digkey[0], digkey[1], value))] = c
+    return lc(out)
+
+
 class LcModels(Models):
     def __init__(self):
         super().__init__()
@@ -84,6 +94,10 @@ class LcModels(Models):
             if a[0] == "lc" and b[0] == "lc":
                 self.group_ops += 1
                 return ladd(a, b, -1 if re.search(r"::sub$", n) else 1)
+            if a[0] == "lcsel" and b[0] == "lc":
+                # buckets[|d| - 1] +- P with a symbolic digit d: "the selected bucket plus delta"
+                self.group_ops += 1
+                return ("lcupd", a[1], lscale(b, -1) if re.search(r"::sub$", n) else b)
             return TOP
         if S(r"core::ops::(AddAssign|SubAssign)<.*>>::(add|sub)_assign$") and re.search(POINT_TY, full) and args and args[0][0] == "ref":
             a, b = A(0), A(1)
@@ -108,9 +122,9 @@ class LcModels(Models):
                 self.group_ops += 1
                 return lscale(A(0), 2 ** k[1])
             return TOP
-        if re.search(r"::(as_extended|as_projective|as_projective_niels|as_affine_niels|to_extended|to_projective)(::\w+>::_impl_\w+)?$", n) and A(0)[0] == "lc":
+        if re.search(r"::(as_extended|as_projective|as_projective_niels|as_affine_niels|to_extended|to_projective)(::\w+>::_impl_\w+)?$", n) and A(0)[0] in ("lc", "lcupd", "lcsel"):
             return A(0)
-        if S(r"core::convert::(From|Into)<.*>>::(from|into)$|impl core::convert::From<.*> for .*>::from$") and args and A(0)[0] == "lc" \
+        if S(r"core::convert::(From|Into)<.*>>::(from|into)$|impl core::convert::From<.*> for .*>::from$") and args and A(0)[0] in ("lc", "lcupd", "lcsel") \
                 and re.search(POINT_TY + r"$", dty) and "LookupTable" not in dty:
             return A(0)
         if re.search(r"::clone$", n) and args and A(0)[0] in ("lc", "dig"):
@@ -119,7 +133,13 @@ class LcModels(Models):
         if S(r"core::cmp::Ord.*::cmp$|cmp::impls::<impl core::cmp::Ord for i\d+>::cmp$") and len(args) == 2:
             x, y = ip.deconst(A(0)), ip.deconst(A(1))
             if x[0] == "dig" and y[0] == "i" and y[1] == y[2] == 0:
-                return ("ord", (-1, 1))
+                fs = getattr(self, "digit_sign", None)       # scenario: every symbolic digit is positive / negative
+                return ("ord", (-1, 1)) if fs is None else ("ord", (fs * x[3],))
+        # bucket indexing by a symbolic digit (Pippenger): buckets[(|d| - 1) as usize]
+        if S(r"alloc::vec::Vec<.*> as core::ops::Index(Mut)?<usize>>::index(_mut)?$|core::ops::Index(Mut)?<usize>.*::index(_mut)?$") and len(args) == 2:
+            ix = ip.deconst(args[1])
+            if ix[0] == "bidx" and args[0][0] == "ref":
+                return ("ref", args[0][1], args[0][2], args[0][3] + (("isym", ix[1], ix[2]),))
         # recodings: symbolic digits
         m = re.search(r"scalar::Scalar::(as_radix_16|as_radix_2w|non_adjacent_form)$", n)
         if m and args:
@@ -168,17 +188,55 @@ class LcModels(Models):
 class LcInterp(Interp):
     """symbolic digits are generic non-zero values: the routine must compute the combination for them; a zero digit only ever skips work"""
 
+    def cast(self, v, kind, ty):
+        if v[0] in ("dig", "bidx"):
+            return v
+        return super().cast(v, kind, ty)
+
+    def read_path(self, cur, path, ty_hint=None):
+        for k, e in enumerate(path):
+            if isinstance(e, tuple) and e and e[0] == "isym":
+                return ("lcsel", (e[1], e[2]))
+        return super().read_path(cur, path, ty_hint)
+
+    def write_path(self, cur, path, val, weak=False):
+        if not any(isinstance(e, tuple) and e and e[0] == "isym" for e in path):
+            return super().write_path(cur, path, val, weak)
+        for k, e in enumerate(path):
+            if isinstance(e, tuple) and e and e[0] == "isym":
+                if k != len(path) - 1:
+                    return super().write_path(cur, path[:k], TOP)
+                arr = super().read_path(cur, path[:k])
+                key = (e[1], e[2])
+                if arr[0] != "arr" or val[0] != "lcupd" or val[1] != key or any(x[0] != "lc" for x in arr[1]):
+                    self.sym_write_failures = getattr(self, "sym_write_failures", []) + ["%s <- %s" % (str(arr)[:80], str(val)[:120])]
+                    return super().write_path(cur, path[:k], TOP)
+                digkey, sign = key
+                new = []
+                for b, old in enumerate(arr[1]):
+                    t = lind(val[2], digkey, sign * (b + 1))
+                    if t is None:
+                        return super().write_path(cur, path[:k], TOP)
+                    new.append(ladd(old, t))
+                return super().write_path(cur, path[:k], ("arr", tuple(new)))
+        return super().write_path(cur, path, val, weak)
+
     def binop(self, op, a, b, ty, fv=None, line=0):
         base = op.replace("Unchecked", "")
         if base in ("Eq", "Ne"):
             for x, y in ((a, b), (b, a)):
                 if x[0] == "dig" and y[0] == "i" and y[1] == y[2] == 0:
                     return I(1 if base == "Ne" else 0)
+        if base == "Sub" and a[0] == "dig" and b[0] == "i" and b[1] == b[2] == 1:
+            # (d - 1) resp. (-d - 1): the bucket index of a positive / negative symbolic digit; a[3] = +1 for d, -1 for -d
+            return ("bidx", (a[1], a[2]), a[3])
         return super().binop(op, a, b, ty, fv, line)
 
 
-def run(F, f, values):
-    ip = LcInterp(F, LcModels(), step_budget=12_000_000)
+def run(F, f, values, vec_limit=8, digit_sign=None):
+    ip = LcInterp(F, LcModels(), step_budget=40_000_000)
+    ip.models.digit_sign = digit_sign
     ip.exact_small_vecs = True
+    ip.exact_vec_limit = vec_limit
     ret, root = ip.run_root(f, values)
     return ret, ip
